@@ -63,9 +63,11 @@ F(m, e) == JNum(m, e, TRUE)
 (* ---------- C11: index and slice arithmetic ------------------------------- *)
 C11Lens == IF Thorough THEN 0..6 ELSE 0..4
 ArrOfLen(n) == JArr([i \in 1..n |-> JInt(i - 1)])
+\* rows of every length 0..7: slices INSIDE a function argument, where only the number of selected nodes is visible
+C11CountDoc == JArr([n \in 1..8 |-> ArrOfLen(n - 1)])
 C11Docs == [n \in 1..(IF Thorough THEN 7 ELSE 5) |-> ArrOfLen(n - 1)]
            \o <<JObj(<<cA, cB>>, <<JInt(0), JInt(1)>>), JStr(<<97, 98, 99>>), JInt(5), JNull,
-                JArr(<<ArrOfLen(3), ArrOfLen(2), JObj(<<cA>>, <<ArrOfLen(4)>>)>>)>>
+                JArr(<<ArrOfLen(3), ArrOfLen(2), JObj(<<cA>>, <<ArrOfLen(4)>>)>>), C11CountDoc>>
 Window(w) == [i \in 1..(2 * w + 1) |-> i - w - 1]
 C11Bounds == <<ABSENT>> \o Window(IF Thorough THEN 8 ELSE 4)
              \o (IF Thorough THEN <<BIG, 0 - BIG, BIG - 1, 1 - BIG>> ELSE <<BIG, 0 - BIG>>)
@@ -75,16 +77,26 @@ C11Slices == FlattenSeq([a \in 1..Len(C11Bounds) |-> FlattenSeq([b \in 1..Len(C1
 C11Idx == LET w == Window(IF Thorough THEN 9 ELSE 6) \o <<BIG, 0 - BIG, BIG - 1, 1 - BIG>>
           IN [i \in 1..Len(w) |-> SIndex(w[i])]
 C11Sels == C11Slices \o C11Idx
+C11CntB == <<ABSENT, 0, 1, -1, 2, -3>>
+C11CntS == <<ABSENT, 1, 2, 3, -1, -2, -3, 5, -5>>
+C11CntSlices == FlattenSeq([a \in 1..Len(C11CntB) |-> FlattenSeq([b \in 1..Len(C11CntB) |-> [c \in 1..Len(C11CntS) |-> SSlice(C11CntB[a], C11CntB[b], C11CntS[c])]])])
+CountOf(sl) == EFn("count", <<ERel(<<Child(<<sl>>)>>)>>)
+C11CountQ == FlattenSeq([i \in 1..Len(C11CntSlices) |->
+               << Flt1(LCmp("==", CountOf(C11CntSlices[i]), ELit(JInt(1)))), Flt1(LCmp("==", CountOf(C11CntSlices[i]), ELit(JInt(2)))),
+                  Flt1(LCmp(">=", CountOf(C11CntSlices[i]), ELit(JInt(3)))) >>])
+             \o [i \in 1..Len(C11CntSlices) |-> Flt1(LCmp("==", EFn("value", <<ERel(<<Child(<<C11CntSlices[i]>>)>>)>>), ELit(JInt(1))))]    \* value(@[slice]) == 1
 C11Queries == [i \in 1..Len(C11Sels) |-> <<Child(<<C11Sels[i]>>)>>]
               \o [i \in 1..Len(C11Sels) |-> <<Desc(<<C11Sels[i]>>)>>]       \* the same under ..
               \o [i \in 1..Len(C11Idx) |-> <<Child(<<SWild>>), Child(<<C11Idx[i]>>)>>]
+              \o C11CountQ                                                  \* (always the LAST queries; on C11CountDoc only)
 C11Stride == IF Thorough THEN 1 ELSE 3
 
 (* ---------- C03: Normalized Paths ------------------------------------------ *)
 C03Alpha == <<97, 32, 39, 34, 92, 47, 1, 10, 233, 128512>>       \* a SP ' " \ / U+0001 LF e-acute U+1F600
 C03Names == DedupSeq(TuplesOf(C03Alpha, 1) \o TuplesOf(C03Alpha, 2)
             \o << <<39, 120, 39>>, <<34, 120, 34>>, <<48>>, <<>>, <<8>>, <<12>>, <<13>>, <<9>>, <<11>>, <<31>>, <<127>>,
-                  <<97, 39, 98>>, <<92, 110>>, <<92, 92>>, <<36>>, <<91, 48, 93>> >>)
+                  <<97, 39, 98>>, <<92, 110>>, <<92, 92>>, <<36>>, <<91, 48, 93>>,
+                  <<133>>, <<97, 133, 98>>, <<128>>, <<159>>, <<160>>, <<8232>>, <<65535>>, <<1114111>>, <<55295>>, <<57344>>, <<93, 46, 91>> >>)   \* C1 controls, NBSP, LS, range ends
 C03Inner == <<JInt(1), JArr(<<JInt(1), JInt(2), JInt(3)>>), JObj(<<cA>>, <<JInt(1)>>)>>
 \* one odd-named member at depth 1, and the same below a plain member / inside an array
 C03Docs == FlattenSeq([i \in 1..Len(C03Names) |->
@@ -120,23 +132,32 @@ C04Prims == <<JNull, JBool(TRUE), JBool(FALSE), JInt(0), F(0, 0), JInt(1), F(1, 
               JInt(100), F(1, 2), F(1000, -1), F(1, -20), F(-1, -20), JInt(2), F(25, -1),
               JNum(1, 19, FALSE), F(1, 19), JNum(9, 18, FALSE),          \* 10^19 (beyond i64: stored as u64), 1e19, 9*10^18
               JStr(<<>>), JStr(cA), JStr(cB), JStr(<<65>>), JStr(<<233>>), JStr(<<128512>>), JStr(<<97, 98>>),
-              JStr(<<49>>), JStr(<<97, 0>>)>>
+              JStr(<<49>>), JStr(<<97, 0>>), JStr(<<65535>>), JStr(<<57344>>), JStr(<<65536>>), JStr(<<97, 65535>>), JStr(<<97, 128512>>)>>       \* BMP end / supplementary plane: code point order differs from UTF-16 order
 C04Structs == <<JArr(<<>>), JArr(<<JInt(1)>>), JArr(<<F(1, 0)>>), JArr(<<JInt(1), JInt(2)>>), JArr(<<JArr(<<JInt(1)>>)>>),
                 JObj(<<>>, <<>>), Obj1(cA, JInt(1)), Obj1(cA, F(1, 0)), JObj(<<cA, cB>>, <<JInt(1), JInt(2)>>),
                 JArr(<<JNull>>), Obj1(cA, JNull)>>
 NegZero == JNum(0, 0 - 999, TRUE)             \* stored as the float -0.0 (harness), mathematically 0
 C04Vals == C04Prims \o C04Structs \o <<NegZero, NOTHING>>
 C04ValsQ == <<JNull, JBool(TRUE), JInt(0), JInt(1), F(1, 0), F(15, -1), F(1, -20), JInt(100), F(1, 2), JNum(1, 19, FALSE), F(1, 19),
-              JStr(<<>>), JStr(cA), JStr(cB), JStr(<<233>>), JStr(<<128512>>),
+              JStr(<<>>), JStr(cA), JStr(cB), JStr(<<233>>), JStr(<<128512>>), JStr(<<65535>>),
               JArr(<<>>), JArr(<<JInt(1)>>), JArr(<<F(1, 0)>>), JObj(<<>>, <<>>), Obj1(cA, JInt(1)), Obj1(cA, F(1, 0)), NegZero, NOTHING>>
 C04V == IF Thorough THEN C04Vals ELSE C04ValsQ
 \* children {x: v1, y: v2} for all pairs, in chunks
 C04Children == Cross2(C04V, C04V, LAMBDA v, w : ObjOpt(<<cX, cY>>, <<v, w>>))
 C04ChunkDocs == LET ch == Chunks(C04Children, 40) IN [i \in 1..Len(ch) |-> JArr(ch[i])]
 \* integer literals beyond 2^53 are not written in queries (the implementation rejects them; unscoped, see adjudication log)
-C04Lits == IF Thorough THEN FilterSeq(C04Prims, LAMBDA v : ~(v.t = "num" /\ ~v.f /\ v.e > 15)) ELSE <<JNull, JBool(TRUE), JInt(0), JInt(1), F(1, 0), F(1, -20), F(1, 2), JInt(100), F(1, 19), F(0, 0), JStr(<<>>), JStr(cA), JStr(<<233>>)>>
+C04Lits == IF Thorough THEN FilterSeq(C04Prims, LAMBDA v : ~(v.t = "num" /\ ~v.f /\ v.e > 15)) ELSE <<JNull, JBool(TRUE), JInt(0), JInt(1), F(1, 0), F(1, -20), F(1, 2), JInt(100), F(1, 19), F(0, 0), JStr(<<>>), JStr(cA), JStr(<<233>>), JStr(<<65535>>), JStr(<<128512>>)>>
 C04Single == JArr([i \in 1..Len(C04V) |-> ObjOpt(<<cX>>, <<C04V[i]>>)])
-C04Docs == C04ChunkDocs \o <<C04Single>>
+\* numbers with 17 significant digits (more than a double distinguishes, as many as its shortest round-trip form may need):
+\* the literal and the document spell the SAME decimal, so they are the same value; different rows differ within the first 8 digits
+C04LongN == IF Thorough THEN 80 ELSE 40
+LongM(i) == 10000000 + ((i * 1299709) % 89999989)
+LongXs(i) == [k \in 1..9 |-> 48 + ((i * 7 + k * k * 3 + i * k) % 10)]
+LongE(i) == CASE i % 5 = 0 -> 0 - 17 [] i % 5 = 1 -> 0 - 20 [] i % 5 = 2 -> 0 - 9 [] i % 5 = 3 -> 3 [] OTHER -> 0 - 330
+LongNum(i) == JNumX(LongM(i), LongXs(i), LongE(i), TRUE)
+C04LongDoc == JArr([i \in 1..C04LongN |-> Obj1(cX, LongNum(i))])
+C04LongQ == FlattenSeq([i \in 1..C04LongN |-> << Flt1(LCmp("==", RelN(cX), ELit(LongNum(i)))), Flt1(LCmp("<", ELit(LongNum(i)), RelN(cX))) >>])
+C04Docs == C04ChunkDocs \o <<C04Single, C04LongDoc>>
 C04PairQ == [o \in 1..6 |-> Flt1(LCmp(CmpOps[o], RelN(cX), RelN(cY)))]
             \o [o \in 1..6 |-> Flt1(LCmp(CmpOps[o], EFn("value", <<RelN(cX)>>), RelN(cY)))]
             \o [o \in 1..6 |-> Flt1(LCmp(CmpOps[o], RelN(cX), AbsIdxN(0, cY)))]        \* $-rooted operand
@@ -147,9 +168,11 @@ C04LitQ == FlattenSeq([l \in 1..Len(C04Lits) |-> FlattenSeq([o \in 1..6 |->
                                            Flt1(LCmp(CmpOps[o], EFn("count", <<ERel(<<N1(cX), Child(<<SWild>>)>>)>>), ELit(F(1, 0)))),
                                            Flt1(LCmp(CmpOps[o], ELit(JInt(1)), ELit(F(1, 0)))),
                                            Flt1(LCmp(CmpOps[o], ELit(JStr(cA)), ELit(JStr(cB)))) >>])
-C04Queries == C04PairQ \o C04LitQ
-\* pair queries on pair chunks, literal queries on the single-operand document
-C04Pick(d, q) == IF q <= Len(C04PairQ) THEN d <= Len(C04ChunkDocs) ELSE d = Len(C04Docs)
+C04Queries == C04PairQ \o C04LitQ \o C04LongQ
+\* pair queries on pair chunks, literal queries on the single-operand document, long-mantissa queries on theirs
+C04Pick(d, q) == IF q <= Len(C04PairQ) THEN d <= Len(C04ChunkDocs)
+                 ELSE IF q <= Len(C04PairQ) + Len(C04LitQ) THEN d = Len(C04ChunkDocs) + 1 ELSE d = Len(C04ChunkDocs) + 2
+ASSUME \A i, k \in 1..C04LongN : i # k => LongM(i) # LongM(k)
 
 (* ---------- C05: filter logic, existence, scoping ---------------------------- *)
 RECURSIVE NestF(_)
@@ -163,10 +186,26 @@ C05CVals == <<NOTHING, JInt(1), JInt(2)>>
 C05Kids == FlattenSeq([a \in 1..Len(C05AVals) |-> FlattenSeq([b \in 1..Len(C05BVals) |->
               [c \in 1..Len(C05CVals) |-> ObjOpt(<<cA, cB, cC>>, <<C05AVals[a], C05BVals[b], C05CVals[c]>>)]])])
 C05Extra == <<JInt(1), JNull, JArr(<<>>), JArr(<<Obj1(cB, JInt(1))>>), JArr(<<Obj1(cA, JInt(1)), JInt(2)>>), Obj1(cX, Obj1(cB, JNull))>>
+\* long chains of alternatives (a query as large as hand-written "IN lists"): children whose c is an integer, the same number
+\* written as a float, a near miss, a string of the digit, missing
+C05ChainVals == <<JInt(1), JInt(2), F(2, 0), F(20, -1), JInt(7), F(7, 0), F(25, -1), JInt(8), JInt(9), JInt(12), F(12, 0), JStr(<<50>>), NOTHING, JNull, JInt(0), JArr(<<JInt(2)>>)>>
+C05ChainDoc == JObj(<<cK, cL>>, <<F(3, 0), JArr([i \in 1..Len(C05ChainVals) |-> ObjOpt(<<cA, cC>>, <<JInt(i), C05ChainVals[i]>>)])>>)
+ChainOr(n, lit(_)) == LOr([i \in 1..n |-> LCmp("==", RelN(cC), ELit(lit(i)))])
+ChainAnd(n, lit(_)) == LAnd([i \in 1..n |-> LCmp("!=", RelN(cC), ELit(lit(i)))])
+IntLit(i) == JInt(i)
+FloatLit(i) == F(i * 10, -1)
+MixLit(i) == IF i % 2 = 0 THEN JInt(i) ELSE F(i, 0)
+C05ChainLx == << ChainOr(8, IntLit), ChainOr(9, IntLit), ChainOr(12, IntLit), ChainOr(8, FloatLit), ChainOr(12, MixLit), ChainOr(7, IntLit),
+                 LParen(TRUE, ChainOr(8, IntLit)), LParen(TRUE, ChainOr(9, FloatLit)), ChainAnd(8, IntLit), ChainAnd(12, FloatLit),
+                 LOr([i \in 1..8 |-> LCmp("==", EAbs(<<N1(cK)>>), ELit(JInt(i)))]),                                       \* $.k == 1 || ... || $.k == 8  ($.k is 3.0)
+                 LOr([i \in 1..9 |-> LCmp("==", ELit(JInt(i)), RelN(cC))]),                                              \* literal on the left
+                 LAnd(<<ChainOr(8, IntLit), LTest(FALSE, RelN(cA))>>), LOr(<<LParen(FALSE, ChainOr(8, FloatLit)), LCmp("==", RelN(cC), ELit(JNull))>>),
+                 LOr([i \in 1..16 |-> LCmp("==", RelN(cC), ELit(IF i = 16 THEN JStr(<<50>>) ELSE JInt(i + 20)))]),
+                 LOr([i \in 1..10 |-> LCmp("<", RelN(cC), ELit(JInt(i - 5)))]), LAnd([i \in 1..10 |-> LCmp(">=", RelN(cC), ELit(F(i, 0)))]) >>
 C05Docs == <<JObj(<<cK, cL>>, <<JInt(1), JArr(C05Kids \o C05Extra)>>),
              JObj(<<cK, cL>>, <<JInt(2), JObj([i \in 1..12 |-> <<107, 48 + (i \div 10), 48 + (i % 10)>>], [i \in 1..12 |-> (C05Kids \o C05Extra)[i * 5]])>>),
              JArr(<<JArr(<<Obj1(cB, JInt(1))>>), JArr(<<JInt(1)>>), JArr(<<>>), Obj1(cA, Obj1(cB, JInt(1))), Obj1(cB, JInt(1)), JInt(3)>>),
-             C05DeepDoc>>
+             C05DeepDoc, C05ChainDoc>>
 TA == LTest(FALSE, RelN(cA))   TB == LTest(FALSE, RelN(cB))   TC == LCmp("==", RelN(cC), ELit(JInt(1)))
 NA == LTest(TRUE, RelN(cA))    NB == LTest(TRUE, RelN(cB))
 TK == LCmp("==", EAbs(<<N1(cK)>>), RelN(cA))                       \* $.k == @.a   ($ is the document root)
@@ -202,6 +241,7 @@ C05DeepQ == << <<Child(<<SFilter(NestF(34))>>)>>, <<Child(<<SFilter(NestF(40))>>
 C05Queries == C05DeepQ \o [i \in 1..Len(C05Lx) |-> <<N1(cL), Child(<<SFilter(C05Lx[i])>>)>>]        \* $.l[?lx]
               \o [i \in 1..Len(C05A) |-> <<Desc(<<SFilter(C05A[i])>>)>>]                \* $..[?atom]
               \o [i \in 1..Len(C05A) |-> <<Child(<<SFilter(C05A[i])>>)>>]               \* $[?atom]
+              \o [i \in 1..Len(C05ChainLx) |-> <<N1(cL), Child(<<SFilter(C05ChainLx[i])>>)>>]   \* $.l[?c == 1 || c == 2 || ...]   (always the LAST queries)
 C05Stride == IF Thorough THEN 1 ELSE 2
 
 (* ---------- C10: length, count, value, match, search -------------------------- *)
@@ -241,7 +281,12 @@ C10FnExprs == <<EFn("length", <<RelN(cX)>>), EFn("count", <<XW>>), EFn("count", 
                 EFn("count", <<ERel(<<N1(cX), Child(<<SFilter(LCmp(">", ERel(<<>>), ELit(JInt(5))))>>)>>)>>),
                 EFn("value", <<ERel(<<Child(<<SFilter(LCmp(">", ERel(<<>>), ELit(JInt(1))))>>)>>)>>),             \* value(@[?@ > 1])  filter applied directly to @
                 EFn("value", <<ERel(<<Child(<<SSlice(1, ABSENT, ABSENT)>>)>>)>>),                                 \* value(@[1:])
-                EFn("count", <<ERel(<<Child(<<SSlice(5, ABSENT, ABSENT)>>)>>)>>)>>
+                EFn("count", <<ERel(<<Child(<<SSlice(5, ABSENT, ABSENT)>>)>>)>>),
+                EFn("count", <<ERel(<<N1(cX), Child(<<SIndex(0), SIndex(0)>>)>>)>>),                                \* count(@.x[0,0])   a node selected twice counts twice
+                EFn("count", <<ERel(<<N1(cX), Child(<<SWild, SWild>>)>>)>>),                                        \* count(@.x[*,*])
+                EFn("count", <<ERel(<<N1(cX), Child(<<SSlice(0, 2, ABSENT), SSlice(1, 3, ABSENT), SIndex(-1)>>)>>)>>), \* count(@.x[0:2,1:3,-1])
+                EFn("count", <<ERel(<<Child(<<SName(cX), SName(cX), SWild>>)>>)>>),                                 \* count(@['x','x',*])
+                EFn("value", <<ERel(<<N1(cX), Child(<<SIndex(0), SIndex(0)>>)>>)>>)>>                               \* value(@.x[0,0])   two nodes: nothing
 C10FnQ == FlattenSeq([f \in 1..Len(C10FnExprs) |->
              [k \in 1..5 |-> Flt1(LCmp("==", C10FnExprs[f], ELit(JInt(k - 1))))]
              \o << Flt1(LCmp(">=", C10FnExprs[f], ELit(JInt(0)))), Flt1(LCmp("<", C10FnExprs[f], ELit(JInt(2)))),
@@ -259,7 +304,7 @@ C10LitQ == << Flt1(LCmp("==", EFn("length", <<ELit(JStr(<<1078, 1078>>))>>), ELi
               Flt1(LCmp("<", EFn("length", <<ELit(JStr(<<233>>))>>), ELit(JInt(2)))) >>
 \* {s: subject, p: pattern} children: the pattern comes from the document
 C10PatDocPats == << <<39, 97, 39>>, <<34, 97>>, <<97, 39>>, <<92, 92, 91, 97, 46, 93>>, <<92, 92, 46>>, <<97, 92, 46, 98>>, <<92, 46>>, <<91, 97, 46, 93>>, <<91, 92, 93, 93>>, <<92, 92>>,
-                   <<97, 92, 92, 98>>, <<40, 97, 124, 98, 41, 92, 46>>, <<91, 94, 92, 92, 93>>, <<97, 46, 98>>, <<91>>, <<92>> >>
+                   <<97, 92, 92, 98>>, <<40, 97, 124, 98, 41, 92, 46>>, <<91, 94, 92, 92, 93>>, <<97, 46, 98>>, <<91>>, <<92>>, <<97, 92, 92, 46, 98>>, <<92, 92, 92, 92>>, <<91, 94, 92, 92, 92, 92, 93>>, <<92, 92, 92, 46>> >>
 C10PatDocSubj == << <<39, 97, 39>>, <<34, 97>>, <<97, 39>>, <<92, 120>>, <<92, 97>>, <<92, 13>>, <<92, 46>>, <<97, 46, 98>>, <<97, 120, 98>>, <<46>>, <<93>>, <<92>>, <<97, 92, 98>>, <<97, 13, 98>>, <<120>>, <<97>> >>
 \* counted repetition, incl. a long one (size of the compiled automaton)
 RepN(c, n) == [i \in 1..n |-> c]
@@ -274,7 +319,13 @@ C10BigDoc == JArr(<<JObj(<<cP, cS>>, <<JStr(RenderRe(RRep(RAny, C10BigN, C10BigN
 C10PatDoc == JArr(Cross2(C10PatDocSubj, C10PatDocPats, LAMBDA sj, pt : JObj(<<cP, cS>>, <<JStr(pt), JStr(sj)>>)))
 C10PatQ == << Flt1(LTest(FALSE, EFn("match", <<RelN(cS), RelN(cP)>>))), Flt1(LTest(FALSE, EFn("search", <<RelN(cS), RelN(cP)>>))) >>
 C10Docs == <<C10SubjDoc, C10FnDoc, C10PatDoc, C10RepDoc, C10BigDoc>>
-C10Queries == C10ReQ \o C10FnQ \o C10LitQ \o C10PatQ
+\* literal patterns whose SPELLING contains backslashes, on the documents whose patterns come from the document: the same
+\* text once as a literal (one backslash meant) and once as a document value (two backslashes meant), in one process
+C10EscLits == << <<92, 46>>, <<97, 92, 46, 98>>, <<92, 92>>, <<91, 94, 92, 92, 93>>, <<92, 92, 46>> >>
+C10EscLitQ == FlattenSeq([i \in 1..Len(C10EscLits) |->
+                << Flt1(LTest(FALSE, EFn("match", <<RelN(cS), ELit(JStr(C10EscLits[i]))>>))),
+                   Flt1(LTest(FALSE, EFn("search", <<RelN(cS), ELit(JStr(C10EscLits[i]))>>))) >>])
+C10Queries == C10ReQ \o C10FnQ \o C10LitQ \o C10EscLitQ \o C10PatQ
 C10Pick(d, q) == IF q <= Len(C10ReQ) THEN d = 1 /\ Stride(IF Thorough THEN 1 ELSE 3, d, q)
                  ELSE IF q <= Len(C10ReQ) + Len(C10FnQ) + Len(C10LitQ) THEN d = 2 ELSE (d \in {3, 4} \/ (d = 5 /\ q = Len(C10Queries) - 1))
 
@@ -296,7 +347,12 @@ C14Queries == FlattenSeq([f \in 1..5 |->
                 << Flt1(LTest(FALSE, EFn(C14Fns[f], <<RelN(cX), RelN(cL)>>))),
                    Flt1(LTest(TRUE, EFn(C14Fns[f], <<RelN(cX), RelN(cL)>>))),
                    Flt1(LTest(FALSE, EFn(C14Fns[f], <<RelN(cX), AbsIdxN(0, cL)>>))),
-                   Flt1(LAnd(<<LTest(FALSE, EFn(C14Fns[f], <<RelN(cX), RelN(cL)>>)), LTest(FALSE, RelN(cX))>>)) >>]) \o C14LitQ
+                   Flt1(LAnd(<<LTest(FALSE, EFn(C14Fns[f], <<RelN(cX), RelN(cL)>>)), LTest(FALSE, RelN(cX))>>)),
+                   \* arguments given as NON-singular queries that select at most one node ('zz' is nowhere): the argument is that node
+                   Flt1(LTest(FALSE, EFn(C14Fns[f], <<RelN(cX), ERel(<<Child(<<SName(cL), SName(<<122, 122>>)>>)>>)>>))),            \* fn(@.x, @['l','zz'])
+                   Flt1(LTest(TRUE, EFn(C14Fns[f], <<ERel(<<Child(<<SName(<<122, 122>>), SName(cX)>>)>>), RelN(cL)>>))),             \* !fn(@['zz','x'], @.l)
+                   Flt1(LTest(FALSE, EFn(C14Fns[f], <<RelN(cX), EAbs(<<Child(<<SSlice(0, 1, ABSENT)>>), N1(cL)>>)>>))),               \* fn(@.x, $[0:1].l)
+                   Flt1(LTest(FALSE, EFn(C14Fns[f], <<RelN(cX), EAbs(<<Child(<<SSlice(0, 1, ABSENT)>>), Child(<<SName(cL), SName(<<122, 122>>)>>)>>)>>))) >>]) \o C14LitQ   \* fn(@.x, $[0:1]['l','zz'])
 C14Stride == IF Thorough THEN 1 ELSE 1
 
 (* ---------- C15: member order that only an insertion-ordered Queryable can have ------------- *)
@@ -306,7 +362,10 @@ U3 == JObj(<<<<122>>, <<97, 32, 98>>, cA>>, <<JInt(1), JInt(2), JInt(3)>>)
 UEq == JArr(<<JObj(<<cY, cX>>, <<JObj(<<cB, cA>>, <<JInt(2), JInt(1)>>), JObj(<<cA, cB>>, <<JInt(1), JInt(2)>>)>>),
              JObj(<<cX, cY>>, <<JObj(<<cA>>, <<JArr(<<JObj(<<cB, cA>>, <<JInt(1), JInt(2)>>)>>)>>), JObj(<<cA>>, <<JArr(<<JObj(<<cA, cB>>, <<JInt(2), JInt(1)>>)>>)>>)>>),
              JObj(<<cY, cX>>, <<JObj(<<cB, cA>>, <<JInt(2), JInt(1)>>), JObj(<<cA, cB>>, <<JInt(1), JInt(3)>>)>>)>>)
-C15Docs == <<U1, U2, U3, UEq, JArr(<<U1, U2>>), JObj(<<cK, cA>>, <<U2, JArr(<<U3, JInt(1)>>)>>),
+\* objects with MANY members (17: beyond small-size special cases) in two different insertion orders, equal / different in one value
+UBig(off, odd) == JObj([i \in 1..17 |-> <<97 + ((i * 5 + off) % 17)>>], [i \in 1..17 |-> JInt(IF (i * 5 + off) % 17 = odd THEN 99 ELSE (i * 5 + off) % 17)])
+UEq17 == JArr(<<JObj(<<cY, cX>>, <<UBig(0, 50), UBig(3, 50)>>), JObj(<<cX, cY>>, <<UBig(1, 50), UBig(7, 4)>>), JObj(<<cX, cY>>, <<UBig(2, 50), UBig(11, 50)>>)>>)
+C15Docs == <<U1, U2, U3, UEq, UEq17, JArr(<<U1, U2>>), JObj(<<cK, cA>>, <<U2, JArr(<<U3, JInt(1)>>)>>),
              JObj(<<cB, cA>>, <<JObj(<<cB, cA>>, <<JObj(<<cB, cA>>, <<JInt(1), JInt(2)>>), JInt(2)>>), JInt(3)>>)>>
 C15Sels == <<SWild, SName(cA), SName(cB), SIndex(0), SFilter(LCmp(">", ERel(<<>>), ELit(JInt(0)))), SFilter(LTest(FALSE, RelN(cA))),
              SFilter(LCmp("==", RelN(cA), ELit(JInt(1)))), SSlice(ABSENT, ABSENT, -1),
@@ -339,6 +398,7 @@ Pick(d, q) == CASE Univ = "C03" -> C03Pick(d, q)
                 [] Univ = "C04" -> C04Pick(d, q)
                 [] Univ = "C10" -> C10Pick(d, q)
                 [] Univ = "C14" -> IF q > Len(C14Queries) - Len(C14LitQ) THEN d = Len(C14Docs) ELSE d < Len(C14Docs)
-                [] Univ = "C05" -> IF q <= Len(C05DeepQ) THEN d = 4 ELSE d <= 3 /\ Stride(StrideN, d, q)
+                [] Univ = "C05" -> IF q <= Len(C05DeepQ) THEN d = 4 ELSE IF q > Len(C05Queries) - Len(C05ChainLx) THEN d = 5 ELSE d <= 3 /\ Stride(StrideN, d, q)
+                [] Univ = "C11" -> IF q > Len(C11Queries) - Len(C11CountQ) THEN d = Len(C11Docs) ELSE d < Len(C11Docs) /\ Stride(StrideN, d, q)
                 [] OTHER -> Stride(StrideN, d, q)
 =============================================================================
